@@ -344,6 +344,41 @@ example : verifyProof ⟨id, fun l r => l ++ r, []⟩ [[2]]
     (rootH ⟨id, fun l r => l ++ r, []⟩ [[1], [2], [3]]) = true :=
   C11_proof_complete_partial ⟨id, fun l r => l ++ r, []⟩ [[1], [2], [3]] 1 [2] rfl (by decide) []
 
+/-- an injective pairing of byte strings: unary length of the left part, a zero, both parts -/
+def C11.pairHash : HashFns :=
+  { leaf := id, branch := fun l r => List.replicate l.length 1 ++ 0 :: (l ++ r), empty := [] }
+
+private theorem replicate_prefix_inj : ∀ (n m : Nat) (a b : Bytes),
+    List.replicate n (1 : UInt8) ++ 0 :: a = List.replicate m 1 ++ 0 :: b → n = m ∧ a = b := by
+  intro n
+  induction n with
+  | zero =>
+    intro m a b h
+    cases m with
+    | zero => simpa using h
+    | succ m => simp [List.replicate_succ] at h
+  | succ n ih =>
+    intro m a b h
+    cases m with
+    | zero => simp [List.replicate_succ] at h
+    | succ m =>
+      simp only [List.replicate_succ, List.cons_append, List.cons.injEq, true_and] at h
+      obtain ⟨e1, e2⟩ := ih m a b h
+      exact ⟨by omega, e2⟩
+
+theorem C11.pairHash_inj : BranchInj C11.pairHash := by
+  intro a b c d h
+  simp only [C11.pairHash] at h
+  obtain ⟨e1, e2⟩ := replicate_prefix_inj _ _ _ _ h
+  have := List.append_inj e2 e1
+  exact this
+
+/-- non-vacuity of `C11_proof_sound`: its hypotheses hold for the path of every leaf -/
+example : ([[1], [2], [3]] : List Bytes)[1]? = some [2] ∧
+    (pathSpec C11.pairHash [[1], [2], [3]] 1).map (·.2) <+: (pathSpec C11.pairHash [[1], [2], [3]] 1).map (·.2) ++ [] :=
+  C11_proof_sound C11.pairHash C11.pairHash_inj [[1], [2], [3]] 1 (by decide) [2] _
+    (C11_proof_complete_partial C11.pairHash [[1], [2], [3]] 1 [2] rfl (by decide) [])
+
 /-! ### right witness -/
 
 /-- The append path alone reconstructs the root: for the split points `0` (the witness is the whole
